@@ -14,8 +14,11 @@ package engines
 
 import (
 	"bytes"
+	"compress/gzip"
+	"encoding/binary"
 	"encoding/json"
 	"fmt"
+	"io"
 	"math"
 	"os"
 	"path/filepath"
@@ -928,6 +931,11 @@ func (w *ixWorld) enumerate(b []byte, idx fontscan.VerifIndex, stride int) *kern
 			}
 		}
 	}
+	if w.c.Family == "exhaustive" || stride == 7 {
+		if v := w.enumeratePayload(b); v != nil {
+			return v
+		}
+	}
 	w.out.Count("silently_accepted_corruptions", int64(accepted))
 	w.out.Count("fault.enumerated_prefixes", int64(len(b)))
 	w.out.Count("fault.enumerated_byte_corruptions", int64(3*((len(b)+stride-1)/stride)))
@@ -936,6 +944,98 @@ func (w *ixWorld) enumerate(b []byte, idx fontscan.VerifIndex, stride int) *kern
 		w.out.Count("exhaustive_images", 1)
 	}
 	w.states["enumerated:"+bucket(len(b)/1000)] = true
+	return nil
+}
+
+// enumeratePayload samples the corrupted files whose inflate step succeeds: the
+// uncompressed payload of the cache is truncated at every length and corrupted byte by byte
+// (0x00, 0xFF, one bit, +1; strided above 300 positions), re-compressed and decoded. This
+// reaches every length/count field of the format directly, which single-byte damage of the
+// compressed file only does by chance.
+func (w *ixWorld) enumeratePayload(b []byte) *kernel.Violation {
+	zr, err := gzip.NewReader(bytes.NewReader(b))
+	if err != nil {
+		return nil
+	}
+	payload, err := io.ReadAll(zr)
+	if err != nil || len(payload) == 0 {
+		return nil
+	}
+	pack := func(p []byte) []byte {
+		var buf bytes.Buffer
+		zw, _ := gzip.NewWriterLevel(&buf, gzip.BestSpeed)
+		zw.Write(p)
+		zw.Close()
+		return buf.Bytes()
+	}
+	stride := 1
+	if len(payload) > 300 {
+		stride = len(payload)/300 + 1
+	}
+	n := 0
+	for l := 0; l < len(payload); l += stride {
+		if _, _, v := w.decode(pack(payload[:l]), "truncated payload"); v != nil {
+			v.Detail = fmt.Sprintf("uncompressed payload cut at %d of %d bytes: %s", l, len(payload), v.Detail)
+			return v
+		}
+		n++
+	}
+	// the first 64 bytes (version, count, first entry header) and every length-looking field densely
+	mut := make([]byte, len(payload))
+	for i := 0; i < len(payload); i++ {
+		if i >= 64 && i%stride != 0 {
+			continue
+		}
+		for m := 0; m < 4; m++ {
+			copy(mut, payload)
+			switch m {
+			case 0:
+				mut[i] = 0
+			case 1:
+				mut[i] = 0xFF
+			case 2:
+				mut[i] ^= 1 << uint(i%8)
+			default:
+				mut[i]++
+			}
+			if mut[i] == payload[i] {
+				continue
+			}
+			if _, _, v := w.decode(pack(mut), "corrupted payload"); v != nil {
+				v.Detail = fmt.Sprintf("uncompressed payload byte %d of %d set to %#x: %s", i, len(payload), mut[i], v.Detail)
+				return v
+			}
+			n++
+		}
+	}
+	// every prefix of the first entries as a self-consistent file (length field adjusted): the
+	// entry parser then sees its input end inside every field of every footprint
+	off := 6
+	for e := 0; e < 2 && off+4 <= len(payload); e++ {
+		size := int(binary.BigEndian.Uint32(payload[off:]))
+		data := payload[off+4:]
+		if size > len(data) {
+			break
+		}
+		limit := size
+		if limit > 3000 {
+			limit = 3000
+		}
+		for k := 0; k < limit; k++ {
+			p := make([]byte, 0, 10+k)
+			p = append(p, payload[:2]...)
+			p = append(p, 0, 0, 0, 1)
+			p = append(p, byte(k>>24), byte(k>>16), byte(k>>8), byte(k))
+			p = append(p, data[:k]...)
+			if _, _, v := w.decode(pack(p), "entry cut short"); v != nil {
+				v.Detail = fmt.Sprintf("index entry %d cut to its first %d of %d bytes (length field adjusted): %s", e, k, size, v.Detail)
+				return v
+			}
+			n++
+		}
+		off += 4 + size
+	}
+	w.out.Count("fault.enumerated_payload_corruptions", int64(n))
 	return nil
 }
 
